@@ -345,19 +345,21 @@ def C16_demoI : Interp :=
   { base := fun _ => [0x6f, 0x3d, 0x78], scope := fun _ => .subtree, filter := fun _ => .prim 2 7 [0x63, 0x6e],
     attrs := fun _ => [[0x2a]], ctl := fun _ => ⟨[0x31], true, none⟩, opts := fun _ => ⟨.always, true, 5, 7⟩ }
 
-/-- the hypotheses of `C16_request_bytes` are met by the two-page search of the example above (`k = 1`: the
-follow-up), and its conclusion evaluated: the bytes of the follow-up under message ID 2 read back as the
-same search with the other control first and the paging control carrying size 2 and the cookie `07` -/
-example :
-    let r : Req := ⟨some [.other 7, .paged 2 [7]], some 3, some 1000, ⟨1, true⟩, true⟩
-    (exec (init [pr 2] { ctrls := some [.other 7], opts := some 3, tmo := some 1000 } (pagesOf
+/-- the follow-up request of the two-page search of the example above (`k = 1`) -/
+def C16_demoReq : Req := ⟨some [.other 7, .paged 2 [7]], some 3, some 1000, ⟨1, true⟩, true⟩
+
+/-- the hypotheses of `C16_request_bytes` are met by that search … -/
+example : (exec (init [pr 2] { ctrls := some [.other 7], opts := some 3, tmo := some 1000 } (pagesOf
       [⟨[⟨.entry, 1, none, []⟩], ⟨0, [], [⟨true, some [7], 0⟩], .server 3⟩, []⟩]
       ⟨[⟨.entry, 5, none, []⟩], ⟨0, [], [⟨true, some [], 0⟩], .server 6⟩, []⟩ []))
-      [.start ⟨1, true⟩, .next, .next, .next]).s.reqs[1]? = some r ∧
-    (C16_demoI.bytes 2 r).length = 83 ∧
-    (match parseTag (C16_demoI.bytes 2 r) with
-      | .ok t [] => (Ldap3V.Spec.decodeRequest t).map (fun x => (x.1, x.2.2))
-      | _ => none) = some (2, some [⟨[0x31], true, none⟩, Codecs.encPagedResults ⟨2, [7]⟩]) ∧
-    Codecs.Spec.decPaged (Codecs.encPagedResults ⟨2, [7]⟩).val = some ⟨2, [7]⟩ := by decide +kernel
+      [.start ⟨1, true⟩, .next, .next, .next]).s.reqs[1]? = some C16_demoReq := by decide +kernel
+/-- … and these are its bytes under message ID 2 (`30 50 02 01 02 63 1d … a0 2c 30 06 04 01 31 01 01 ff 30 22
+04 16 "1.2.840.113556.1.4.319" 04 08 30 06 02 01 02 04 01 07`): the search, then the controls — the caller's
+first, the paging control with size 2 and cookie `07` last; the RFC 2696 reader on the value -/
+example : C16_demoI.bytes 2 C16_demoReq =
+    [48, 80, 2, 1, 2, 99, 29, 4, 3, 111, 61, 120, 10, 1, 2, 10, 1, 3, 2, 1, 7, 2, 1, 5, 1, 1, 255, 135, 2, 99, 110, 48, 3,
+     4, 1, 42, 160, 44, 48, 6, 4, 1, 49, 1, 1, 255, 48, 34, 4, 22, 49, 46, 50, 46, 56, 52, 48, 46, 49, 49, 51, 53, 53, 54,
+     46, 49, 46, 52, 46, 51, 49, 57, 4, 8, 48, 6, 2, 1, 2, 4, 1, 7] ∧
+    Codecs.Spec.decPaged (Codecs.encPagedResults ⟨2, [7]⟩).val = some ⟨2, [7]⟩ := by decide
 
 end Ldap3V.Stream
